@@ -191,13 +191,18 @@ pub fn gen_step(s: &mut Pool2, rng: &mut Rng, ctx: &mut Ctx) -> Step {
             Op::DepositWithdraw { amounts: [d0, d1] }
         }
         _ => {
-            let path = match rng.below(6) {
+            let path = match rng.below(10) {
                 0 => vec![0, 1],
                 1 => vec![1, 0],
                 2 => vec![0, 1, 2],
                 3 => vec![2, 1, 0],
                 4 => vec![1, 2],
-                _ => vec![2, 1],
+                5 => vec![2, 1],
+                // three hops over the three pairs
+                6 => vec![1, 0, 2, 1],
+                7 => vec![0, 2, 1, 0],
+                8 => vec![2, 0, 1, 2],
+                _ => vec![2, 0, 1],
             };
             let amount = rng.edge_amount(bal[path[0]] / 2).max(1);
             let to = if rng.chance(1, 3) { Some(rng.idx(s.cfg.n_users)) } else { None };
